@@ -72,6 +72,27 @@ def shards(tier):
     return 16
 
 
+RULES0 = []
+
+
+def toposort(sel, req, opt):
+    """harness' own ordering of a requirement-closed selection (stable
+    topological sort on required and present optional predecessors); the
+    generator must not depend on nanite's autosort"""
+    out, rest = [], list(sel)
+    while rest:
+        for p_ in rest:
+            pre = [r for r in req[p_] + opt[p_] if r in sel]
+            if all(r in out for r in pre):
+                out.append(p_)
+                rest.remove(p_)
+                break
+        else:       # cannot happen for the shipped rules (no cycles)
+            out += rest
+            break
+    return out
+
+
 def valid_request(rng, req, opt):
     ids = sorted(req)
     from nanite import preproc
@@ -90,7 +111,7 @@ def valid_request(rng, req, opt):
             for r in req[p]:
                 if r not in sel:
                     sel.append(r)
-        steps = preproc.autosort(sel)
+        steps = toposort(sel, req, opt)
         if "compute_tip_position" in steps:
             break
     options = {}
@@ -124,6 +145,18 @@ def invalid_request(rng, req, opt):
                  ["correct_tip_offset", "compute_tip_position"]][
             int(rng.integers(5))]
         options = {}
+        if rng.random() < .5:
+            # a valid pipeline in which one step was moved in front of (or
+            # is missing) a step it requires
+            steps0, _ = valid_request(rng, req, opt)
+            cand = [p_ for p_ in steps0 if req[p_]]
+            if cand:
+                p_ = cand[int(rng.integers(len(cand)))]
+                steps = [x for x in steps0 if x != p_]
+                if rng.random() < .5:
+                    steps = [x for x in steps if x not in req[p_]] + [p_]
+                else:
+                    steps.insert(0, p_)
         what = "missing-prerequisite"
     elif kind == 2:
         steps = ["compute_tip_position", "correct_tip_offset"]
@@ -169,7 +202,7 @@ def issue(idnt, steps, options, via_fit, details=False):
         else:
             idnt.apply_preprocessing(steps, options, ret_details=details)
     except BaseException as e:  # noqa
-        return "EXC:" + type(e).__name__
+        return "EXC:" + type(e).__name__ + ":" + str(e)[:160]
     return "ok"
 
 
@@ -178,7 +211,7 @@ def fresh_columns(factory, steps, options):
     try:
         f.apply_preprocessing(copy.deepcopy(steps), copy.deepcopy(options))
     except BaseException as e:  # noqa
-        return "EXC:" + type(e).__name__
+        return "EXC:" + type(e).__name__ + ":" + str(e)[:160]
     return columns_fp(f)
 
 
@@ -209,7 +242,11 @@ def make_factory(rng):
 
 
 def run_sequence(rec, rng, cid):
-    req, opt = c14.rules()
+    # (the order rules as they were when the process started: a request
+    #  must not be able to change what counts as valid later on)
+    if not RULES0:
+        RULES0.extend(copy.deepcopy(c14.rules()))
+    req, opt = copy.deepcopy(RULES0[0]), copy.deepcopy(RULES0[1])
     factory, desc, path = make_factory(rng)
     del OPEN_LOG[:]
     idnt = factory()
@@ -293,6 +330,19 @@ def run_sequence(rec, rng, cid):
         else:
             after_rejection = True
             rec.event("rejected requests")
+            if what.startswith("valid") and isinstance(fresh, str) and any(
+                    t in fresh for t in ("requires the steps",
+                                         "step order", "does not exist")):
+                # a request that satisfies every order rule (closed under
+                # requirements, sorted) and names valid options is rejected
+                # even on a fresh object: the rules themselves changed
+                # (e.g. global state left behind by an earlier request)
+                rec.event("valid requests rejected on the curve and on a "
+                          "fresh object")
+                rec.violation("valid-request-rejected",
+                              "request %r/%r obeys the order rules but is "
+                              "rejected (%s; fresh object: %s)"
+                              % (steps, options, res, fresh), case)
             rec.check(isinstance(fresh, str),
                       "rejected-but-fresh-object-accepts",
                       "request %r/%r raised %s after this history but is "
